@@ -386,7 +386,7 @@ def check_table(ctx: Ctx, kind: str, spec: dict, words, origin: str, level_cap: 
         read = call_res(lambda: obj.read_input(w)) if decided else None
         obs.append((w, trace, out, acc, read))
     line = drv.ask(toks("DPDA_RUN", enc.text, len(words),
-                        [toks(fuel_for(len(tr), out), enc.word(w)) for (w, tr, out, _, _) in obs]))
+                        [toks(fuel_for(len(tr), out), size_cap, enc.word(w)) for (w, tr, out, _, _) in obs]))
     valid, runs = p_runs(line, False)
     if valid != ("ok", None):
         ctx.corr_diff("DPDA_VALIDATE", dict(kind=kind, spec=spec_repr(spec), op="validate"), ("ok", None), valid)
@@ -438,8 +438,8 @@ def run_npda(ctx, drv, obj, spec, enc, ref, words, origin, level_cap, size_cap, 
         acc = call_res(lambda: obj.accepts_input(w)) if decided else None
         read = call_res(lambda: obj.read_input(w)) if decided else None
         obs.append((w, levels, out, acc, read))
-    line = drv.ask(toks(cmd, enc.text if cmd == "NPDA_RUN" else enc.text, len(words),
-                        [toks(fuel_for(len(lv), out), enc.word(w)) for (w, lv, out, _, _) in obs]))
+    line = drv.ask(toks(cmd, enc.text, len(words),
+                        [toks(fuel_for(len(lv), out), size_cap, enc.word(w)) for (w, lv, out, _, _) in obs]))
     valid, runs = p_runs(line, True)
     if valid != ("ok", None):
         ctx.corr_diff("NPDA_VALIDATE", dict(kind=tag, spec=spec_repr(spec), op="validate"), ("ok", None), valid)
